@@ -230,26 +230,23 @@ fn execute_block_binary_extended<DataRes, DataIn, DataBrk, M, BE: Backend>(
             // computation in two steps: acc_add_dft = (acc * sk) * (-1) + (acc * sk) * X^{-ai}
             } else {
                 // Sets acc_add_dft[0..ai_lo] += (acc[extension_factor - ai_lo..extension_factor] * sk) * X^{-ai+1}
-                if (ai_hi + 1) & (two_n - 1) != 0 {
-                    for (i, j) in (0..ai_lo).zip(extension_factor - ai_lo..extension_factor) {
-                        (0..cols).for_each(|k| {
-                            module.svp_apply_dft_to_dft(&mut vmp_xai, 0, &x_pow_a[ai_hi + 1], 0, &vmp_res[j], k);
-                            module.vec_znx_dft_add_assign(&mut acc_add_dft[i], k, &vmp_xai, 0);
-                            module.vec_znx_dft_sub_assign(&mut acc_add_dft[i], k, &vmp_res[i], k);
-                        });
-                    }
+                // (no shortcut for X^{2N} = 1: source and destination are different polynomials, the term does not vanish)
+                for (i, j) in (0..ai_lo).zip(extension_factor - ai_lo..extension_factor) {
+                    (0..cols).for_each(|k| {
+                        module.svp_apply_dft_to_dft(&mut vmp_xai, 0, &x_pow_a[(ai_hi + 1) & (two_n - 1)], 0, &vmp_res[j], k);
+                        module.vec_znx_dft_add_assign(&mut acc_add_dft[i], k, &vmp_xai, 0);
+                        module.vec_znx_dft_sub_assign(&mut acc_add_dft[i], k, &vmp_res[i], k);
+                    });
                 }
 
                 // Sets acc_add_dft[ai_lo..extension_factor] += (acc[0..extension_factor - ai_lo] * sk) * X^{-ai}
-                if ai_hi != 0 {
-                    // Sets acc_add_dft[ai_lo..extension_factor] += (acc[0..extension_factor - ai_lo] * sk) * X^{-ai}
-                    for (i, j) in (ai_lo..extension_factor).zip(0..extension_factor - ai_lo) {
-                        (0..cols).for_each(|k| {
-                            module.svp_apply_dft_to_dft(&mut vmp_xai, 0, &x_pow_a[ai_hi], 0, &vmp_res[j], k);
-                            module.vec_znx_dft_add_assign(&mut acc_add_dft[i], k, &vmp_xai, 0);
-                            module.vec_znx_dft_sub_assign(&mut acc_add_dft[i], k, &vmp_res[i], k);
-                        });
-                    }
+                // (no shortcut for X^0 = 1 either, for the same reason)
+                for (i, j) in (ai_lo..extension_factor).zip(0..extension_factor - ai_lo) {
+                    (0..cols).for_each(|k| {
+                        module.svp_apply_dft_to_dft(&mut vmp_xai, 0, &x_pow_a[ai_hi], 0, &vmp_res[j], k);
+                        module.vec_znx_dft_add_assign(&mut acc_add_dft[i], k, &vmp_xai, 0);
+                        module.vec_znx_dft_sub_assign(&mut acc_add_dft[i], k, &vmp_res[i], k);
+                    });
                 }
             }
         });
